@@ -292,11 +292,15 @@ def gen(rng, tier):
                     pre.append(["add", b, "buf", []])
                     conns[p] = b
             if invalid:
-                kind = rng.choice(("badkey", "badnet", "dupinst"))
+                kind = rng.choice(("badkey", "badnet", "badnet_out", "dupinst"))
                 if kind == "badkey":
                     conns["nopin"] = rng.choice(drivers) if drivers else "p0"
                 elif kind == "badnet":
                     conns[rng.choice(ins)] = "missing_net"
+                elif kind == "badnet_out" and outs:
+                    p = rng.choice(outs)
+                    conns.pop(p, None)
+                    conns[p] = "missing_net"
             for po in pre:
                 ops.append(po)
                 R["nodes"][po[1]] = ["buf", [], False]
@@ -330,9 +334,14 @@ def gen(rng, tier):
                         pre.append(["add", f"b{cnt}", "buf", []])
                         conns[p] = [b, f"b{cnt}"]
             if invalid:
-                kind = rng.choice(("badkey", "badnet"))
+                kind = rng.choice(("badkey", "badnet", "badnet_out"))
                 if kind == "badkey":
                     conns["nokey"] = rng.choice(drivers) if drivers else "p0"
+                elif kind == "badnet_out" and outs:
+                    # a typo in the net an OUTPUT is attached to, listed after connections that are fine
+                    p = rng.choice(outs)
+                    conns.pop(p, None)
+                    conns[p] = "missing_net"
                 else:
                     conns[rng.choice(ins)] = "missing_net"
             if rng.random() < 0.3:
@@ -529,9 +538,26 @@ def run(case, ctx):
                                     f"{len(rs0['nodes'])} nodes for {n_other} nodes + {n_pins_kept} pins; "
                                     f"{ref.wiring_violations(rs0, undriven=False)[:2]}", dict(sig, merged=True))
                 return
+            R_before = R
             R = ref.snapshot(c)
             R = {"name": R["name"], "nodes": R["nodes"], "bbs": R["bbs"]}
-            if ref.wiring_violations(R, undriven=False) or ref.is_cyclic(R):
+            if exc is not None and k in ("add_subcircuit", "fill_blackbox", "add_blackbox"):
+                # "every pre-existing node keeps its function" also when the composition is refused: a refused call
+                # may not rewire, retype or (un)mark the nodes that were there before (what it leaves behind
+                # besides is C07's clause)
+                changed = sorted(n for n, v in R_before["nodes"].items()
+                                 if n in R["nodes"] and (R["nodes"][n][0] != v[0] or sorted(R["nodes"][n][1]) != sorted(v[1])
+                                                         or bool(R["nodes"][n][2]) != bool(v[2])))
+                gone = sorted(n for n in R_before["nodes"] if n not in R["nodes"])
+                if k == "fill_blackbox":
+                    # the pins of the instance being filled are the call's own business
+                    changed = [n for n in changed if not n.startswith(op[1] + ".")]
+                    gone = [n for n in gone if not n.startswith(op[1] + ".")]
+                if changed or gone:
+                    ctx.violate("C06.refused_changed_preexisting", f"step {step} {op}: refused with {type(exc).__name__} but "
+                                f"pre-existing nodes changed {changed[:3]} / disappeared {gone[:3]}", dict(sig, refused=True))
+            if ref.wiring_violations(R, undriven=False) or ref.is_cyclic(R) or \
+                    any(v[0] in ref.GATES and v[0] not in ("buf", "not") and not v[1] for v in R["nodes"].values()):
                 raise Skip("state after an invalid call is outside the oracle's bounds")
             continue
         if exc is not None:
